@@ -386,6 +386,9 @@ SHAPES = [
     ('gfa2', ['S\tx\t10\t*', 'S\ty\t10\t*', 'E\te\tx+\ty+\t7\t10$\t0\t3\t*', 'O\ta\tb+ x+', 'O\tb\ta+ x+']),
     ('gfa2', ['S\tx\t10\t*', 'E\t*\tx+\tx+\t7\t10$\t0\t3\t*', 'E\t*\tx+\tx+\t7\t10$\t0\t3\t*', 'E\te\tx+\tx-\t7\t10$\t7\t10$\t*',
               'O\to\tx+ x+', 'U\tu\tx x e', 'F\tx\tx+\t0\t3\t0\t3\t*', 'G\tg\tx+\tx-\t3\t*']),
+    # groups of one item (an edge, a segment, another group), a set of one set, an empty-looking path
+    ('gfa2', ['S\tx\t10\t*', 'S\ty\t10\t*', 'E\te\tx+\ty+\t7\t10$\t0\t3\t*', 'O\tp\te+', 'O\tq\te-', 'O\tr\tx-', 'O\ts\tp+', 'O\tt\tp-',
+              'U\tu\te', 'U\tv\tu', 'U\tw\tp']),
     ('gfa1', ['S\tx\t*', 'L\tx\t+\tx\t+\t*', 'L\tx\t+\tx\t-\t*', 'C\tx\t+\tx\t+\t0\t*', 'P\tp\tx+,x+,x-\t*', 'P\tq\tx+\t*',
               'P\tr\tx+,x+\t*,*']),
 ]
